@@ -968,3 +968,182 @@ void run_bake_base(uint64_t seed, const sk_mask* mask, sk_result* out)
 	out->sig = sk_mix(((uint64_t)c->proto << 24) | ((uint64_t)c->l << 8) | ((uint64_t)c->kca << 3) | ((uint64_t)c->kcb << 2) | ((uint64_t)c->mode[0] << 1) | (uint64_t)c->mode[1], 78);
 	out->nontrivial = 1;
 }
+
+
+/* ------------------------------------------------------------------------
+   C15 for secrets the harness cannot name: the same session (same shape, same
+   schedule, same heap garbage, same injected allocation failure) is executed with
+   two unrelated sets of secrets - private keys, password, both generator tapes -
+   and every block the library releases is snapshotted at the instant of release.
+   Paired blocks must agree except where the differing octets are public in their
+   own run: on the wire, in a certificate or in a hello message.  A decrypted
+   message part, a derived key or an unreduced exponent that survives in released
+   memory differs between the two runs and is in neither transcript. */
+#define DF_MAXBLK 256
+static struct { size_t off, n; int kind; } dfb[2][DF_MAXBLK];
+static int dfn[2], dfv, df_over;
+static octet dfbuf[2][1 << 19];
+static size_t dffill[2];
+static void on_release_diff(void* p, size_t n, int kind)
+{
+	if (dfn[dfv] >= DF_MAXBLK || dffill[dfv] + n > sizeof(dfbuf[0]))
+	{
+		df_over = 1;
+		return;
+	}
+	dfb[dfv][dfn[dfv]].off = dffill[dfv], dfb[dfv][dfn[dfv]].n = n, dfb[dfv][dfn[dfv]].kind = kind;
+	memcpy(dfbuf[dfv] + dffill[dfv], p, n);
+	dffill[dfv] += n, ++dfn[dfv];
+}
+
+void run_bake_diff(uint64_t seed, const sk_mask* mask, sk_result* out)
+{
+	static octet corpus[2][24000];
+	static const char* KN[3] = { "freed", "left behind by a moving realloc", "still allocated at return" };
+	size_t cn[2];
+	sk_rng r;
+	cfg_t* c = &CFG;
+	uint64_t fill, ts[2][2], ss, resec;
+	int strat, v, who, b, d, o, s;
+	long kk;
+	err_t rc[2][2];
+	int acc[2][2];
+	OUT = out, MASK = mask;
+	c15_only = 0;
+	sk_rng_seed(&r, seed);
+	gen_cfg(&r, 1);
+	if (c->proto == P_BAUTH)
+		c->mode[0] = c->mode[1] = 1;
+	c->tape_mode[0] = c->tape_mode[1] = 0;
+	fill = sk_u64(&r), ss = sk_u64(&r), resec = sk_u64(&r);
+	for (v = 0; v < 2; ++v)
+		ts[v][0] = sk_u64(&r), ts[v][1] = sk_u64(&r);
+	strat = (int)sk_below(&r, 4);
+	/* error exits: one allocation of one party fails (the same one in both runs) */
+	who = -1, kk = 0;
+	if (sk_chance(&r, 1, 2))
+		who = (int)sk_below(&r, 2), kk = 1 + (long)sk_below(&r, 4);
+	describe("session x2 (two unrelated sets of secrets)");
+	if (who >= 0)
+		sk_text(OUT, "  allocation #%ld of party %c fails in both runs", kk, who ? 'B' : 'A');
+	sk_heap_filter = heap_filter;
+	out->nops = 0;
+	df_over = 0;
+	for (v = 0; v < 2; ++v)
+	{
+		if (v == 1)
+		{
+			/* same shape, other secrets */
+			tape_t setup;
+			sk_rng pr;
+			sk_rng_seed(&setup.r, resec), setup.mode = 0, setup.calls = 0;
+			for (s = 0; s < 2; ++s)
+			{
+				b2_keypair(c->priv[s], c->pub[s], c->l / 4, tape_gen, &setup);
+				memcpy(c->certdata[s] + c->cert_pref[s], c->pub[s], c->l / 2);
+			}
+			sk_rng_seed(&pr, sk_mix(resec, 7));
+			sk_bytes(&pr, c->pwd[0], 40);
+			memcpy(c->pwd[1], c->pwd[0], 40);
+		}
+		dfv = v, dfn[v] = 0, dffill[v] = 0;
+		sk_heap_reset(fill);
+		sk_wipe_normalise(); /* memWipe's pattern depends on a hidden counter */
+		sk_heap_on_release(on_release_diff);
+		PT[0].fail_at = who == 0 ? kk : 0, PT[1].fail_at = who == 1 ? kk : 0;
+		setup_party(0, ts[v][0], 0), setup_party(1, ts[v][1], 0);
+		ch_init(&CHS[v], 0);
+		CHS[v].field_len = c->l / 4;
+		CHS[v].fragment_honest = 0xFF;
+		if (run_session(&CHS[v], ss, strat) != 0)
+		{
+			sk_heap_on_release(0);
+			sk_violate(out, "deadlock", "session did not terminate");
+			sk_restart_requested = 1;
+			return;
+		}
+		sk_heap_scan_live(on_release_diff);
+		sk_heap_on_release(0);
+		if (sk_heap_exhausted() || df_over) { sk_fault(out, "arena or snapshot store exhausted"); return; }
+		rc[v][0] = PT[0].rc, rc[v][1] = PT[1].rc;
+		acc[v][0] = PT[0].accepted, acc[v][1] = PT[1].accepted;
+		sk_dg_u64(&out->digest, rc[v][0]), sk_dg_u64(&out->digest, rc[v][1]);
+		/* what is public in this run */
+		cn[v] = 0;
+		for (d = 0; d < 2; ++d)
+			for (o = 0; o < 3; ++o)
+				if (CHS[v].loglen[d][o] && cn[v] + CHS[v].loglen[d][o] <= sizeof(corpus[0]))
+					memcpy(corpus[v] + cn[v], CHS[v].log[d][o], CHS[v].loglen[d][o]), cn[v] += CHS[v].loglen[d][o];
+		for (s = 0; s < 2; ++s)
+		{
+			memcpy(corpus[v] + cn[v], c->certdata[s], c->certlen[s]), cn[v] += c->certlen[s];
+			memcpy(corpus[v] + cn[v], c->hello[s], sizeof(c->hello[s])), cn[v] += sizeof(c->hello[s]);
+		}
+	}
+	sk_count("calls", 1);
+	sk_count("released_blocks", dfn[0]);
+	if (is_known_framing())
+		return;
+	if (rc[0][0] != rc[1][0] || rc[0][1] != rc[1][1] || acc[0][0] != acc[1][0] || acc[0][1] != acc[1][1] || dfn[0] != dfn[1])
+	{
+		sk_count("probe.incomparable_pair", 1);
+		return;
+	}
+	for (b = 0; b < dfn[0]; ++b)
+	{
+		const octet* x = dfbuf[0] + dfb[0][b].off;
+		const octet* y = dfbuf[1] + dfb[1][b].off;
+		size_t n = dfb[0][b].n, i = 0;
+		if (dfb[1][b].n != n || dfb[1][b].kind != dfb[0][b].kind)
+		{
+			sk_count("probe.incomparable_pair", 1);
+			return;
+		}
+		if (dfb[0][b].kind == 1)
+			sk_count("probe.realloc_moved_block", 1);
+		while (i < n)
+		{
+			size_t j, lo, hi;
+			if (x[i] == y[i])
+			{
+				++i;
+				continue;
+			}
+			/* maximal differing region, tolerating gaps of up to 3 equal octets */
+			j = i + 1;
+			for (;;)
+			{
+				size_t g = j;
+				while (g < n && g < j + 4 && x[g] == y[g])
+					++g;
+				if (g < n && g < j + 4)
+					j = g + 1;
+				else
+					break;
+			}
+			/* short regions are looked up with their surroundings: at least 8 octets */
+			lo = i, hi = j;
+			while (hi - lo < 8 && (lo > 0 || hi < n))
+			{
+				if (lo > 0) --lo;
+				if (hi - lo < 8 && hi < n) ++hi;
+			}
+			if (!(memmem(corpus[0], cn[0], x + lo, hi - lo) && memmem(corpus[1], cn[1], y + lo, hi - lo)))
+			{
+				sk_violate(out, "secret_residue:protocol",
+					"%s l=%u (A rc=%u, B rc=%u%s): released block #%d of %lu octets (%s) differs between two sets of secrets at [%lu,%lu) and the octets are in neither transcript",
+					PN[c->proto], (unsigned)c->l, (unsigned)rc[0][0], (unsigned)rc[0][1], who >= 0 ? ", one allocation failed" : "",
+					b, (unsigned long)n, KN[dfb[0][b].kind], (unsigned long)i, (unsigned long)j);
+				return;
+			}
+			sk_count("probe.difference_excused_as_public", 1);
+			i = j;
+		}
+	}
+	sk_count("compared_pairs", 1);
+	if (rc[0][0] != ERR_OK || rc[0][1] != ERR_OK)
+		sk_count("probe.protocol_error_exit_compared", 1);
+	out->sig = sk_mix(((uint64_t)c->proto << 24) | ((uint64_t)c->l << 8) | ((uint64_t)c->mode[0] << 1) | (uint64_t)c->mode[1] |
+		((uint64_t)(who + 1) << 4) | ((uint64_t)kk << 40) | ((uint64_t)dfn[0] << 48), 79);
+	out->nontrivial = 1;
+}
